@@ -541,6 +541,10 @@ func (g *progGen) rowCount() string {
 	if g.evalMode {
 		return pick([]string{"0", "1", "2", "3", "5"})
 	}
+	if g.misuse > 0 && rng.Intn(1000) < 4*g.misuse {
+		// a non-integer literal row count (rejected by the parser)
+		return pick([]string{"1.5", "1e3", "1E3", "2E+2", "0E0", ".5", "1.", "3.0", "1e-1", "0.0e0", "'5'", "\"3\""})
+	}
 	if len(g.bound) > 0 && rng.Intn(4) == 0 {
 		return pick(g.bound)
 	}
@@ -850,6 +854,8 @@ func genCompileCases(tier string, emit func(op string, fields ...string)) {
 	}
 	for _, s := range []string{
 		"T | where a.$left == 1", "T | project x = a.b.$right", "T | extend y = strcat(tolower(t.$left), 'x')", "T | join (U | where u.$left == 1) on k",
+		"T | take 1E3", "T | take 1e3", "T | limit 2E+2", "T | top 5E1 by x", "T | take 0E0", "T | take 1.5", "T | take .5", "T | take 1.", "T | take '5'",
+		"T | join (U | take 1E3) on k", "T | take 0x1E3", "T | take 007", "T | top 0x10 by a",
 		"T | where `$left`.a == 1", "T | where a.`$left` == 1", "T | join (U) on a.$left == $right.b", "T | sort by $right.a", "T | take $left",
 		"T | summarize count() by $left.k", "T | top 3 by x.$right", "let v = a.$left; T", "T | where f(g(h($right.x)))",
 	} {
